@@ -244,6 +244,54 @@ func runC02(c *caseWriter) (string, bool, map[string]int) {
 		}
 	}
 
+	// ------------------------------------------------------------ (2b) static prefixes at the edge of the validators
+	// code-loading URL attributes: a prefix that stops INSIDE the scheme or the authority (no closing
+	// slash), alternatives that a pattern must anchor, case / white-space / entity spellings; data
+	// that continues the host, adds user-info or a port
+	truSites := []string{`<script src="%s{{.}}"></script>`, `<link rel="stylesheet" href="%s{{.}}">`, `<iframe src='%s{{.}}'></iframe>`, `<embed src="%s{{.}}">`, `<object data="%s{{.}}"></object>`, `<base href="%s{{.}}">`,
+		`<script src="%s{{.A}}/js/{{.B}}.js"></script>`}
+	truPrefixes := []string{"//h.example", "https://h.example", "https://h.example:8080", "HTTPS://H.EXAMPLE", "//h.example.", "https://h", "//h", "//", "https://", "https:", "https:/", "https:///", "///", "/", "/x", "/x/",
+		"//h.example/", "https://h.example/", "https://h.example\\", "https://h.example?", "https://h.example#", "//h.example?x", "about:blank", "about:blank#", "ABOUT:BLANK#", "about:blank#x",
+		"x//h.example/", "x about:blank#", "/x about:blank#", "javascript://about:blank#", "data:about:blank#", "x/about:blank#/", "#about:blank#", "http://h.example/", "ftp://h.example/",
+		"\thttps://h.example/", " //h.example/", "&#47;/h.example", "/&#47;h.example", "https:&#47;&#47;h.example", "//h.example&#46;", "//h&period;example", "https&colon;//h.example", "/\\h.example", "\\\\h.example/", "/%2f", "/.", "/..",
+		"data:", "data:text/javascript,", "blob:", "javascript:", "filesystem:", "//[::1]", "//[::1]/", "//h.example:", "//h.example@", "//user@h.example"}
+	hostData := []string{"." + mkA + ".org/x.js", "@" + mkA + ".org/x.js", ":80@" + mkA + ".org/", mkA + ".org/x.js", "/" + mkA + ".org/x.js", "/../" + mkA, mkA}
+	for _, site := range truSites {
+		for i, pre := range truPrefixes {
+			t := fmt.Sprintf(site, pre)
+			if strings.Contains(site, ".A") {
+				cc(t, c02Map("A", hostData[i%len(hostData)], "B", mkB))
+				continue
+			}
+			for j, d := range hostData {
+				if thorough || j == i%len(hostData) || j == 0 {
+					cc(t, c02Str(d))
+				}
+			}
+		}
+	}
+	// URL attributes: a prefix whose scheme is javascript (or another script scheme) and that goes on
+	// past a '/', '?' or '#', in the spellings a browser accepts
+	jsPrefixes := []string{"javascript:f('/p/", "javascript:void(0)//", "javascript:s('?q=", "javascript:x#", "javascript:/", "javascript://h.example/%0a", "JavaScript:f('/", "JAVASCRIPT:/",
+		"javascript&colon;f('/p/", "javascript&#58;//", "javascript&#x3a;/?", "&#106;avascript:/", "&#x6a;avascript:f(/", "java&Tab;script:/", "java&NewLine;script:f('/", "jav&#x0A;ascript:/x",
+		" javascript:/", "&#1;javascript:/", "&nbsp;javascript:/", "javascript :/", "vbscript:/", "data:text/html,/", "data:text/html;base64,/", "x:javascript:/", "/javascript:/", "?javascript:/", "#javascript:/",
+		"javascript:alert(1)//", "javascript:'/*", "javascript:`${'/", "javascript:%2f/", "javascript:a?b:c/"}
+	jsSites := []string{`<a href="%s{{.}}">x</a>`, `<form action="%s{{.}}')"></form>`, `<button formaction='%s{{.}}'>b</button>`, `<img src="%s{{.}}">`, `<link rel="icon" href="%s{{.}}">`, `<a href="%s{{.A}}'{{.B}}">x</a>`, `<img srcset="%s{{.}} 2x">`, `<iframe src="%s{{.}}"></iframe>`}
+	for si, site := range jsSites {
+		for i, pre := range jsPrefixes {
+			if !thorough && si > 1 && (i+si)%3 != 0 {
+				continue
+			}
+			t := fmt.Sprintf(site, pre)
+			if strings.Contains(site, ".A") {
+				js(t, c02Map("A", "x", "B", ");alert(1)//"))
+				continue
+			}
+			js(t, c02Str("');alert(1)//"))
+			js(t, c02Str("x"))
+		}
+	}
+
 	// ------------------------------------------------------------ (3) element bodies, comments, handlers
 	bodyElems := append([]string{"script", "style", "SCRIPT", "Style", "textarea", "title", "xmp", "iframe", "noscript", "noembed", "noframes", "plaintext", "svg", "math", "x-foo", "template", "object", "select", "table"}, contElems...)
 	leaves := []string{mkA, "</script>" + mkA, "</style>" + mkA, "-->" + mkA, "--!>" + mkA, "<!--" + mkA, "<script>" + mkA + "</script>", "<style>" + mkA + "</style>", "\"" + mkA, "'" + mkA, "`" + mkA, "*/" + mkA, "\\" + mkA,
